@@ -29,7 +29,7 @@ const (
 	// same process-wide setting; registration is not what C07 is about).
 	setupTimeout = 30 * time.Second
 	slack        = 2 * time.Second // "plus scheduling slack" of the statement
-	settleMax    = 5 * time.Second // a dropped plugin's session must be closed well within this
+	settleMax    = 3 * time.Second // a dropped plugin's session must be closed well within this
 	mainTag      = "main"
 	followTag    = "follow"
 )
@@ -158,7 +158,7 @@ func ownFieldUpdate(rank, idx int, tag string) *api.ContainerUpdate {
 	case 0:
 		u.SetLinuxCPUQuota(int64(100_000 + idx))
 	case 1:
-		u.SetLinuxCPUPeriod(uint64(200_000 + idx))
+		u.SetLinuxCPUPeriod(int64(200_000 + idx))
 	case 2:
 		u.SetLinuxMemorySwap(int64(3_000_000 + idx))
 	case 3:
@@ -588,8 +588,6 @@ func runOnce(c C07Case) (v verdict) {
 	var names []string
 	for _, pl := range reg {
 		f.newPlugin(pl)
-		var dial func(string) (conn netConn, err error)
-		_ = dial
 		if pl.spec.Fault.Kind != "none" {
 			px, err := NewProxy(f.dir, "px"+pl.idx2(), rt.Socket)
 			if err != nil {
@@ -738,7 +736,11 @@ func runOnce(c C07Case) (v verdict) {
 				v.fail = fmt.Sprintf("clause 5: plugin %02d was invoked although plugin %02d before it had failed the request with an error", pl.spec.Idx, vetoer.spec.Idx)
 				return
 			}
-			survivors = append(survivors, pl)
+			if ft.Kind == "close" && ft.When == "before" {
+				struck = append(struck, pl) // its connection is gone although the request never got to it
+			} else {
+				survivors = append(survivors, pl)
+			}
 			continue
 		}
 		isStruck, isDuring := false, false
@@ -774,16 +776,6 @@ func runOnce(c C07Case) (v verdict) {
 			isStruck, isDuring = pl.rep.Consumed, pl.rep.Consumed
 			if pl.rep.Consumed {
 				mayTime++
-			}
-		}
-		if ft.Kind == "none" || (!isStruck && ft.Kind != "error") {
-			// a healthy plugin (or one whose fault did not strike) that was reached must have been invoked
-			if invoked != 1 && !(ft.Kind == "hang" || (ft.Kind == "close" && ft.When == "during")) {
-				if ft.Kind == "none" || ft.Kind == "cut" || (ft.Kind == "close" && ft.When == "after") {
-					// defer the verdict until overload has been ruled out (a healthy plugin that
-					// needed longer than the timeout is dropped by design)
-					hist["not_invoked"] = pl.spec.Idx
-				}
 			}
 		}
 		if isStruck {
@@ -989,14 +981,21 @@ func describe(ft Fault) string {
 // runC07 judges one case. Verdicts that depend on the clock are confirmed by re-executing the
 // same case (up to three more times); they count as violations only if they fail every time.
 func runC07(c C07Case) ev.Outcome {
-	var v verdict
-	for attempt := 0; attempt < 4; attempt++ {
-		v = runOnce(c)
-		if v.timeFail == "" {
-			break
+	v := runOnce(c)
+	if v.timeFail != "" {
+		first := v
+		for attempt := 0; attempt < 3 && !v.leakedFix; attempt++ {
+			v = runOnce(c)
+			if v.timeFail == "" {
+				break
+			}
 		}
-		if v.leakedFix {
-			break // a wedged adaptation cannot be torn down; do not pile up more of them
+		switch {
+		case v.fail != "": // a content violation showed up while confirming: final as it is
+		case v.timeFail == "":
+			// the time clause did not fail again: the machine, not the code
+			v = first
+			v.overload, v.timeFail = "time clause failed once and passed on re-execution: "+first.timeFail, ""
 		}
 	}
 	o := ev.Outcome{Classes: v.classes, Lenient: v.lenient, NonTrivial: v.nontriv, History: v.history}
